@@ -1,0 +1,26 @@
+//go:build verif
+
+// Verification hook of the lockset / total work packages (build tag `verif` only; add-only file): a Galaxy
+// built from an in-memory JsonConf exactly as Init does after reading the file (checkNetworkConf), with the
+// kube client, port-mapping handler and policy manager handed in instead of created from the host.
+package galaxy
+
+import (
+	"k8s.io/client-go/kubernetes"
+	"tkestack.io/galaxy/pkg/network/portmapping"
+	"tkestack.io/galaxy/pkg/policy"
+)
+
+// VerifLsNewGalaxy builds a Galaxy daemon object without docker, sockets or exec-backed handles.
+func VerifLsNewGalaxy(conf JsonConf, client kubernetes.Interface, pmh *portmapping.PortMappingHandler,
+	pm *policy.PolicyManager) (*Galaxy, error) {
+	g := NewGalaxy()
+	g.JsonConf = conf
+	if err := g.checkNetworkConf(); err != nil {
+		return nil, err
+	}
+	g.client = client
+	g.pmhandler = pmh
+	g.pm = pm
+	return g, nil
+}
